@@ -46,6 +46,39 @@ func UnitsFor[K any](k *kinds.Kind[K], cfg *Config, seed uint64) []Unit {
 		}})
 	}
 	if k.Fan != nil {
+		for i := 0; i < cfg.FanHistories; i++ {
+			name := fmt.Sprintf("%s/fanhist/%d", k.Name, i)
+			us = append(us, Unit{name, func(res *ev.Result) {
+				r := unitRng(seed, name)
+				s := NewSession(k, cfg, res, name)
+				fam := k.Fan(r)
+				extra := k.Pool(r, 6)
+				pool := append(append([]K{}, fam...), extra...)
+				// load most of the family and the unrelated keys, then a short mixed history
+				for _, key := range extra {
+					s.Insert(key)
+				}
+				n := len(fam) * (50 + r.Intn(50)) / 100
+				rng.Shuffle(r, fam)
+				for _, key := range fam[:n] {
+					if s.Dead {
+						return
+					}
+					s.Insert(key)
+				}
+				s.every = 1 << 30
+				for i := 0; i < 3 && !s.Dead; i++ {
+					s.After(r)
+					for j := 0; j < 20 && !s.Dead; j++ {
+						s.StepOp(r, pool, phase{n: 1, pIns: 30, pDel: 50})
+					}
+				}
+				if !s.Dead {
+					s.After(r)
+				}
+				res.Inc("units_fan_history")
+			}})
+		}
 		for i := 0; i < cfg.Sweeps; i++ {
 			name := fmt.Sprintf("%s/sweep/%d", k.Name, i)
 			us = append(us, Unit{name, func(res *ev.Result) {
